@@ -412,6 +412,64 @@ def run_c16(tier, seed, t0, replay_item=None):
     return finish(rep, t0)
 
 
+# ----------------------------------------------------------------------------- C15 read-only
+
+def run_c15(tier, seed, t0, replay_item=None):
+    prop = "C15"
+    rep = Report(prop, tier, seed, "model_checking")
+    runner = core.build_runner()
+    core.ensure_keys(runner)
+    mc = {"distinct": 0, "generated": 0}
+    gen = 0
+    if replay_item is not None:
+        items = [replay_item]
+    else:
+        mc = core.model_check("ReadOnly.tla", "MC_ReadOnly.cfg", timeout=1200)
+        log("[C15] TLC exhaustive: %d distinct / %d generated states; C15_ReadOnly, C15_MutatorsDenied, C15_ReadersAgree hold on the design" % (mc["distinct"], mc["generated"]))
+        n = 60 if tier == "quick" else 1200
+        behs, st = core.simulate("ReadOnly.tla", "Gen_ReadOnly.cfg", n, 40, seed * 31 + 5, workers=8, timeout=1500)
+        gen = st["generated"]
+        rng = random.Random(seed)
+        items = []
+        for i, steps in enumerate(behs):
+            cfg, cc, pool = conc.concretise(rng, steps, plain_bias=0.6, allow_pgp=(tier == "thorough" and i % 5 == 0), small=True)
+            items.append({"id": "C15-%d-%d" % (seed, i), "cfg": cfg, "conc": cc, "steps": steps})
+    res, crashed = core.run_batches(runner, "ro", items, per_batch=5, timeout=2400)
+    by_id = {it["id"]: it for it in items}
+    calls, kinds, infra, hist, samples, checks_n = 0, {}, [], 0, [], 0
+    for bid, why in crashed.items():
+        rep.violation("process died during read-only calls of %s: %s" % (bid, why[-1500:]), {"kind": "ro", "prop": prop, "item": by_id[bid]})
+    for bid, r in res.items():
+        if r.get("infra"):
+            infra.append("%s: %s" % (bid, r["infra"]))
+            continue
+        hist += 1
+        calls += r.get("ro_calls", 0)
+        checks_n += r.get("checks", 0)
+        for k, v in (r.get("kinds") or {}).items():
+            kinds[k] = kinds.get(k, 0) + v
+        samples += (r.get("sample") or [])[:2]
+        unknown = []
+        for f in r.get("findings", []):
+            k = match_known(prop, f, by_id[bid])
+            if k:
+                rep.known[k["id"]] = "%s (%s)" % (k["what"], k["id"])
+            else:
+                unknown.append(f)
+        if unknown:
+            f = unknown[0]
+            rep.violation("%s step %d %s: %s" % (bid, f["step"], f.get("call", ""), f["msg"]) + ("\n" + r["dump"][:2000] if r.get("dump") else ""),
+                          {"kind": "ro", "prop": prop, "item": by_id[bid], "findings": unknown[:10]})
+    if infra and len(infra) > len(items) // 2 and not rep.violations:
+        raise Infra("; ".join(infra[:4]))
+    rep.coverage = {"states": max(1, mc["distinct"]), "transitions": max(1, mc["generated"] + gen), "traces_validated_against_impl": hist,
+                    "samples": samples[:10] or ["none"], "evaluations": calls, "distinct_nontrivial": len(kinds),
+                    "rule": "behaviours of spec/ReadOnly.tla: a writable phase populates the tape, then each read-only-phase call (every mutator, observers, OpenFile with 13 flag combinations followed by write/writeat/writestring/truncate/sync/read) is issued against a readOnly=true instance and against an instance without write backend whose index is built on first open; distinct = (call kind, expected outcome) pairs",
+                    "kinds": kinds, "oracle_comparisons": checks_n, "skipped_histories": len(infra)}
+    rep.assumptions = ["tape = SHA-256 of the drive file, index = canonical dump of every row through a second connection, both taken before and after every call"]
+    return finish(rep, t0)
+
+
 # ----------------------------------------------------------------------------- dispatch
 
 def run(prop, tier, seed, t0):
@@ -421,6 +479,8 @@ def run(prop, tier, seed, t0):
         return run_c06(tier, seed, t0)
     if prop == "C16":
         return run_c16(tier, seed, t0)
+    if prop == "C15":
+        return run_c15(tier, seed, t0)
     print("property %s is not claimed by this framework (see MANIFEST.json not_applicable)" % prop, file=sys.stderr)
     return 2
 
@@ -432,6 +492,8 @@ def replay(prop, path):
         it = payload["item"]
         it["oracles"] = [prop]
         return run_core(prop, "quick", 0, t0, replay_item=it)
+    if payload.get("kind") == "ro":
+        return run_c15("quick", 0, t0, replay_item=payload["item"])
     if payload.get("kind") == "open":
         return run_c16("quick", 0, t0, replay_item=payload["item"])
     if payload.get("kind") == "crash":
